@@ -287,7 +287,7 @@ def sigFromPy(pobj):
         vtype = type(pobj[0])
         same = True
         for v in pobj[1:]:
-            if not isinstance(v, vtype):
+            if type(v) is not vtype:
                 same = False
         if same:
             return 'a' + sigFromPy(pobj[0])
@@ -306,7 +306,7 @@ def sigFromPy(pobj):
             if vtype is None:
                 vtype = type(v)
                 first = v
-            elif not isinstance(v, vtype):
+            elif type(v) is not vtype:
                 same = False
         if same:
             return 'a{' + sigFromPy(k) + sigFromPy(first) + '}'
